@@ -11,7 +11,7 @@ def leftover_signature(tok):
     """Generic, name-agnostic snapshot of everything the tokenizer carries over."""
     out = []
     for k, v in sorted(vars(tok).items()):
-        if k == "_verif_cell" or (callable(v) and not isinstance(v, (list, tuple))):
+        if k in ("_verif_cell", "_verif_kept") or (callable(v) and not isinstance(v, (list, tuple))):
             continue
         if isinstance(v, list):
             v = tuple(("tok", len(x[0]), x[1], x[2]) if (isinstance(x, tuple) and len(x) == 3 and isinstance(x[0], list))
@@ -43,6 +43,8 @@ def uses_of(n_tokens, n_frames=0):
     """First uses: complete list run, callback run, generator dropped after j items, and runs cut short
     by an exception (from the source at read k, from the callback at token j, from the validator at frame k)."""
     uses = [("list",), ("callback",)] + [("gen", j) for j in range(n_tokens + 1)] + [("gen_exhausted",)]
+    # a generator that was partly consumed and is still referenced (not closed) while the tokenizer is used again
+    uses += [("gen_kept", j) for j in range(n_tokens + 1)]
     uses += [("cb_raises", j) for j in range(n_tokens)]
     uses += [("src_raises", k) for k in range(n_frames + 1)]
     uses += [("val_raises", k) for k in range(n_frames)]
@@ -71,6 +73,11 @@ def apply_use(tok, use, frames):
     elif use[0] == "gen_exhausted":
         for _ in tok.tokenize(src, generator=True):
             pass
+    elif use[0] == "gen_kept":
+        g = tok.tokenize(src, generator=True)
+        for _ in range(use[1]):
+            next(g, None)
+        tok._verif_kept = g  # stays alive (and suspended) during the later use
     elif use[0] == "cb_raises":
         seen = [0]
 
@@ -316,6 +323,52 @@ def misc(rep, tier):
                               "two live splits of one region object give starts %r / %r, a single split %r" % (
                                   [x[0] for x in got[0]], [x[0] for x in got[1]], [x[0] for x in solo]), {"kind": "misc"})
                 break
+    # an abandoned generator may be finalised (closed / garbage-collected) at ANY later moment: close it after
+    # every number of items of a second generator run on the same tokenizer
+    ST = _auditok()["ST"]
+    for params in [(1, 3, 1, 0, 0, 0), (2, 4, 2, 0, 0, 4), (1, 2, 0, 0, 0, 0), (2, 3, 1, 2, 1, 0)]:
+        for s1, s2 in itertools.product(["AAAAAaA", "AaAAAAAA", "aAA"], ["aAAAAAAAaA", "AAaAAAAaAAA", "A"]):
+            f1 = [(i, c == "A") for i, c in enumerate(s1)]
+            f2 = [(i, c == "A") for i, c in enumerate(s2)]
+            fresh = [(a, b) for _, a, b in ST(_valid_tuple, *params).tokenize(Src(f2))]
+            n1 = len(ST(_valid_tuple, *params).tokenize(Src(f1)))
+            for j in range(n1 + 1):
+                for k in range(len(fresh) + 2):
+                    rep.add("evaluations")
+                    tok = ST(_valid_tuple, *params)
+                    g1 = tok.tokenize(Src(f1), generator=True)
+                    for _ in range(j):
+                        next(g1, None)
+                    g2 = tok.tokenize(Src(f2), generator=True)
+                    got = []
+                    for _ in range(k):
+                        t = next(g2, None)
+                        if t is not None:
+                            got.append((t[1], t[2]))
+                    g1.close()
+                    del g1
+                    for t in g2:
+                        got.append((t[1], t[2]))
+                    if got != fresh:
+                        rep.violation("abandoned generator finalised tuple=%s first=%s j=%d second=%s k=%d" % (
+                            ",".join(map(str, params)), s1, j, s2, k),
+                            "first generator dropped after %d items and finalised after %d items of the second run: second run gives %r, a fresh "
+                            "tokenizer %r" % (j, k, got, fresh), {"kind": "misc"})
+    # a region split that was left unfinished must not shorten later splits of the same region object
+    for p, kw in itertools.product(["AaAaA", "AAAAaAA", "aAAaAa"], kws[:3]):
+        reg = core.AudioRegion(pcm(p), 10, 2, 1)
+        ref = [(r.start, r.data) for r in core.AudioRegion(pcm(p), 10, 2, 1).split(analysis_window=0.1, **kw)]
+        for j in range(len(ref) + 1):
+            rep.add("evaluations")
+            g = reg.split(analysis_window=0.1, **kw)
+            for _ in range(j):
+                next(g, None)
+            again = [(r.start, r.data) for r in reg.split(analysis_window=0.1, **kw)]
+            third = [(r.start, r.data) for r in core.split(reg, analysis_window=0.1, **kw)]
+            if again != ref or third != ref:
+                rep.violation("region split unfinished pattern=%s j=%d kw=%r" % (p, j, sorted(kw.items())),
+                              "after a split of the same region was left at %d regions, a new split gives starts %r (reference %r)" % (
+                                  j, [x[0] for x in again], [x[0] for x in ref]), {"kind": "misc"})
     # buffer source: close and reopen restarts at the beginning
     data = pcm("AaAaA")
     for k in range(0, 7):
